@@ -173,7 +173,7 @@ package geom
 
 //@ func geom1.Coords
 //@   requires wf1(g)
-//@   ensures fresh(res) && mul(len(res), g.stride) == len(g.flatCoords)
+//@   ensures fresh(res) && len(res) * g.stride <= len(g.flatCoords) && (g.stride > 0 ==> len(g.flatCoords) < len(res) * g.stride + g.stride) && (g.stride == 0 ==> len(res) == 0)
 //@   ensures forall i int :: 0 <= i && i < len(res) ==> len(res[i]) == g.stride && fresh(res[i])
 //@   ensures forall i, k int :: 0 <= i && i < len(res) && 0 <= k && k < g.stride ==> res[i][k] == g.flatCoords[i*g.stride + k]
 
@@ -229,7 +229,7 @@ package geom
 //@ func geom2.Coords
 //@   requires wf2(g)
 //@   ensures fresh(res) && len(res) == len(g.ends)
-//@   ensures forall i int :: 0 <= i && i < len(res) ==> fresh(res[i]) && mul(len(res[i]), g.stride) == g.ends[i] - (i == 0 ? 0 : g.ends[i-1])
+//@   ensures forall i int :: 0 <= i && i < len(res) ==> fresh(res[i]) && len(res[i]) * g.stride <= g.ends[i] - (i == 0 ? 0 : g.ends[i-1]) && (g.stride > 0 ==> g.ends[i] - (i == 0 ? 0 : g.ends[i-1]) < len(res[i]) * g.stride + g.stride) && (g.stride == 0 ==> len(res[i]) == 0)
 //@   ensures forall i, j int :: 0 <= i && i < len(res) && 0 <= j && j < len(res[i]) ==> len(res[i][j]) == g.stride && fresh(res[i][j])
 //@   ensures forall i, j, k int :: 0 <= i && i < len(res) && 0 <= j && j < len(res[i]) && 0 <= k && k < g.stride ==> res[i][j][k] == g.flatCoords[(i == 0 ? 0 : g.ends[i-1]) + j*g.stride + k]
 
@@ -355,3 +355,53 @@ package geom
 //@   ensures p.layout == old(g.layout) ==> forall j int :: 0 <= j && j < len(p.flatCoords) ==> g.flatCoords[old(len(g.flatCoords)) + j] == old(p.flatCoords[j])
 //@   ensures g.layout == old(g.layout) && g.stride == old(g.stride) && g.srid == old(g.srid)
 //@   modifies *g, spare(g.flatCoords), spare(g.ends)
+
+// ---------------------------------------------------------------------------
+// C01 "lossless": SetCoords then Coords returns the same nested coordinates, bit for bit
+// (float64 is an opaque sort, so equality is equality of bit patterns).
+
+//@ func verifRoundTrip0
+//@   requires strideOf(layout) >= 0
+//@   ensures len(c) != strideOf(layout) ==> res == nil
+//@   ensures len(c) == strideOf(layout) ==> len(res) == len(c) && forall k int :: 0 <= k && k < len(c) ==> res[k] == c[k]
+
+//@ func verifRoundTrip1
+//@   lemmas mulCancel
+//@   requires strideOf(layout) >= 0 && (strideOf(layout) > 0 || len(cs) == 0)
+//@   ensures (exists i int :: 0 <= i && i < len(cs) && len(cs[i]) != strideOf(layout)) ==> res == nil
+//@   ensures (forall i int :: 0 <= i && i < len(cs) ==> len(cs[i]) == strideOf(layout)) ==> len(res) == len(cs)
+//@   ensures (forall i int :: 0 <= i && i < len(cs) ==> len(cs[i]) == strideOf(layout)) ==> forall i, k int :: 0 <= i && i < len(cs) && 0 <= k && k < len(cs[i]) ==> len(res[i]) == len(cs[i]) && res[i][k] == cs[i][k]
+//@   at exit: assert res != nil ==> mul(len(res), strideOf(layout)) == len(res) * strideOf(layout)
+
+//@ func verifRoundTripRing
+//@   lemmas mulCancel
+//@   requires strideOf(layout) >= 0 && (strideOf(layout) > 0 || len(cs) == 0)
+//@   ensures (exists i int :: 0 <= i && i < len(cs) && len(cs[i]) != strideOf(layout)) ==> res == nil
+//@   ensures (forall i int :: 0 <= i && i < len(cs) ==> len(cs[i]) == strideOf(layout)) ==> len(res) == len(cs)
+//@   ensures (forall i int :: 0 <= i && i < len(cs) ==> len(cs[i]) == strideOf(layout)) ==> forall i, k int :: 0 <= i && i < len(cs) && 0 <= k && k < len(cs[i]) ==> len(res[i]) == len(cs[i]) && res[i][k] == cs[i][k]
+//@   at exit: assert res != nil ==> mul(len(res), strideOf(layout)) == len(res) * strideOf(layout)
+
+//@ func verifRoundTrip2
+//@   lemmas mulCancel
+//@   requires strideOf(layout) > 0
+//@   ensures (exists i, j int :: 0 <= i && i < len(cs) && 0 <= j && j < len(cs[i]) && len(cs[i][j]) != strideOf(layout)) ==> res == nil
+//@   ensures (forall i, j int :: 0 <= i && i < len(cs) && 0 <= j && j < len(cs[i]) ==> len(cs[i][j]) == strideOf(layout)) ==> len(res) == len(cs)
+//@   ensures (forall i, j int :: 0 <= i && i < len(cs) && 0 <= j && j < len(cs[i]) ==> len(cs[i][j]) == strideOf(layout)) ==> forall i int :: 0 <= i && i < len(cs) ==> len(res[i]) == len(cs[i])
+//@   ensures (forall i, j int :: 0 <= i && i < len(cs) && 0 <= j && j < len(cs[i]) ==> len(cs[i][j]) == strideOf(layout)) ==> forall i, j, k int :: 0 <= i && i < len(cs) && 0 <= j && j < len(cs[i]) && 0 <= k && k < len(cs[i][j]) ==> len(res[i][j]) == len(cs[i][j]) && res[i][j][k] == cs[i][j][k]
+//@   at exit: assert res != nil ==> forall i int :: 0 <= i && i < len(res) ==> mul(len(res[i]), strideOf(layout)) == len(res[i]) * strideOf(layout)
+
+//@ func verifRoundTripMLS
+//@   lemmas mulCancel
+//@   requires strideOf(layout) > 0
+//@   ensures (exists i, j int :: 0 <= i && i < len(cs) && 0 <= j && j < len(cs[i]) && len(cs[i][j]) != strideOf(layout)) ==> res == nil
+//@   ensures (forall i, j int :: 0 <= i && i < len(cs) && 0 <= j && j < len(cs[i]) ==> len(cs[i][j]) == strideOf(layout)) ==> len(res) == len(cs)
+//@   ensures (forall i, j int :: 0 <= i && i < len(cs) && 0 <= j && j < len(cs[i]) ==> len(cs[i][j]) == strideOf(layout)) ==> forall i int :: 0 <= i && i < len(cs) ==> len(res[i]) == len(cs[i])
+//@   ensures (forall i, j int :: 0 <= i && i < len(cs) && 0 <= j && j < len(cs[i]) ==> len(cs[i][j]) == strideOf(layout)) ==> forall i, j, k int :: 0 <= i && i < len(cs) && 0 <= j && j < len(cs[i]) && 0 <= k && k < len(cs[i][j]) ==> len(res[i][j]) == len(cs[i][j]) && res[i][j][k] == cs[i][j][k]
+//@   at exit: assert res != nil ==> forall i int :: 0 <= i && i < len(res) ==> mul(len(res[i]), strideOf(layout)) == len(res[i]) * strideOf(layout)
+
+//@ func verifRoundTripMP
+//@   requires strideOf(layout) > 0
+//@   ensures (exists i int :: 0 <= i && i < len(cs) && cs[i] != nil && len(cs[i]) != strideOf(layout)) ==> res == nil
+//@   ensures (forall i int :: 0 <= i && i < len(cs) && cs[i] != nil ==> len(cs[i]) == strideOf(layout)) ==> len(res) == len(cs)
+//@   ensures (forall i int :: 0 <= i && i < len(cs) && cs[i] != nil ==> len(cs[i]) == strideOf(layout)) ==> forall i int :: 0 <= i && i < len(cs) ==> (cs[i] == nil <==> res[i] == nil)
+//@   ensures (forall i int :: 0 <= i && i < len(cs) && cs[i] != nil ==> len(cs[i]) == strideOf(layout)) ==> forall i, k int :: 0 <= i && i < len(cs) && cs[i] != nil && 0 <= k && k < len(cs[i]) ==> len(res[i]) == len(cs[i]) && res[i][k] == cs[i][k]
